@@ -216,6 +216,44 @@ func init() {
 		} else {
 			problem("ppipe.delete not found")
 		}
+		// is the clean-up (ppipe.delete) called by DeletePipe directly — before it returns — or in a goroutine?
+		syncDelete, asyncDelete := false, false
+		if dp != nil {
+			ast.Inspect(dp.Body, func(n ast.Node) bool {
+				switch x := n.(type) {
+				case *ast.GoStmt:
+					if se, ok := x.Call.Fun.(*ast.SelectorExpr); ok && se.Sel.Name == "delete" {
+						asyncDelete = true
+					}
+					return false
+				case *ast.CallExpr:
+					if se, ok := x.Fun.(*ast.SelectorExpr); ok && se.Sel.Name == "delete" {
+						if _, isIdent := se.X.(*ast.Ident); isIdent && len(x.Args) == 0 {
+							syncDelete = true
+						}
+					}
+				}
+				return true
+			})
+		}
+		guard := false
+		if fd := funcDecl(ppf, "ppipe", "saveState"); fd != nil {
+			ast.Inspect(fd.Body, func(n ast.Node) bool {
+				if is, ok := n.(*ast.IfStmt); ok {
+					ast.Inspect(is.Cond, func(m ast.Node) bool {
+						if se, ok := m.(*ast.SelectorExpr); ok && se.Sel.Name == "deleted" {
+							guard = true
+						}
+						return true
+					})
+				}
+				return true
+			})
+		}
+		l.p("/-- `DeletePipe` runs the pipe's clean-up (`ppipe.delete`: cancel, removal of the positions file) itself, before it returns — not in a goroutine -/")
+		l.p("def deleteCleansUpBeforeAcknowledging : Bool := %s", leanBool(syncDelete && !asyncDelete))
+		l.p("/-- `saveState` tests `pp.deleted` (a worker that finishes after the deletion does not bring the positions file back) -/")
+		l.p("def saveStateRefusesDeletedPipe : Bool := %s", leanBool(guard))
 		l.p("/-- `ppipe.delete` cancels the pipe's context (its workers stop at the next loop head) -/")
 		l.p("def deleteCancelsWorkers : Bool := %s", leanBool(delCancels))
 
